@@ -345,7 +345,12 @@ impl DefaultModeArgs {
             },
             report: ReportOverlap {
                 commodity: self.report_commodity.clone(),
-                account_overlap: self.accounts.clone(),
+                // An empty pattern selects nothing, "--accounts \"\"" is documented as "all accounts":
+                // drop empty patterns, so that it becomes the empty (select all) selector list
+                account_overlap: self
+                    .accounts
+                    .as_ref()
+                    .map(|v| v.iter().filter(|s| !s.is_empty()).cloned().collect()),
                 group_by: self.group_by.clone(),
             },
             target: TargetOverlap {
